@@ -29,6 +29,8 @@ from core.engine import Property, F
 from core.prng import Rng
 
 TIMING = ("predict_time", "learn_time")
+AWKWARD_LABELS = ["red wine", "white wine", "dry  gin", " lead", "trail ", "it's", 'quo"te', "back\\slash", "ünï cødé", "tab\there",
+                  "a,b", "[x]", "{k: v}", "(1, 2)", "None", "1", "1.0", "", "new\nline", "plain"]
 MARK = re.compile(r"TOYFAIL:(?:env|lrn|val|kwargs)\d+:\w+")
 
 
@@ -84,7 +86,14 @@ def _env_objects(kind, r):
         envs = Environments(base)
     else:
         src = r.get("src", "linear")
-        if src == "neighbors":
+        if src == "supervised":
+            # in-memory classification data with string labels that a lossy repr / text round trip would mangle
+            labels = [AWKWARD_LABELS[i % len(AWKWARD_LABELS)] for i in r["labels"]]
+            g = Rng(r["seed"], "supervised")
+            X = [[g.below(5), g.below(7)] for _ in range(r["n"])]
+            Y = [labels[g.below(len(labels))] for _ in range(r["n"])]
+            envs = Environments.from_supervised(X, Y)
+        elif src == "neighbors":
             envs = Environments.from_neighbors_synthetic(r["n"], n_actions=r["na"], n_context_features=2, n_action_features=2, n_neighborhoods=5, seed=r["seed"])
         elif src == "kernel":
             envs = Environments.from_kernel_synthetic(r["n"], n_actions=r["na"], n_context_features=2, n_action_features=2, n_exemplars=3, seed=r["seed"])
@@ -140,6 +149,9 @@ def _learner(kind, r):
     if t == "nocopy":
         from props.c01_components import NoCopyLearner
         return NoCopyLearner(r["tag"])
+    if t == "maybe":
+        from props.c01_components import MaybeScoreLearner
+        return MaybeScoreLearner(r["tag"], r["can_score"])
     raise ValueError(t)
 
 
@@ -795,6 +807,20 @@ def gen_runs(rng, tier, real_p, n_alt, seed=1):
     return runs
 
 
+def tame_real_runs(case):
+    """really spawned workers cost about half a second each: keep the number of processes a real run has to start small
+    (a worker is replaced after maxchunksperchild chunks, and without chunk() every task is a chunk of its own)"""
+    if case["mode"] == "product":
+        n = len(case["pe"]) * len(case["pl"]) * len(case["pv"]) + len(case["pe"]) + len(case["pl"]) + len(case["pv"])
+    else:
+        n = 4 * len(case["triples"])
+    for run in case["runs"]:
+        for r in (run, run.get("pre") or {}):
+            if r.get("how") == "real" and r["cfg"][1] > 0 and n / r["cfg"][1] > 6:
+                r["cfg"] = [r["cfg"][0], (n + 5) // 6, r["cfg"][2]]
+    return case
+
+
 def gen_toy(rng, tier, real_p=0.03, fail_bias=1.0, share_bias=1.0):
     envs = []
     for t in range(rng.choice([1, 1, 2, 2, 3])):
@@ -873,7 +899,7 @@ def gen_toy(rng, tier, real_p=0.03, fail_bias=1.0, share_bias=1.0):
                 run["pre"]["how"] = "sim"
     if rng.chance(0.35):
         case["rerun"] = True
-    return case
+    return tame_real_runs(case)
 
 
 def gen_seeded_filter(rng):
@@ -927,6 +953,17 @@ def gen_builtin(rng, tier, real_p=0.03):
     na = envs[0]["na"]
     for r in envs:
         r["na"] = na
+    if rng.chance(0.22):
+        # string-labelled in-memory classification data, materialized so that interactions and reward objects travel pickled
+        k = na
+        start = rng.below(len(AWKWARD_LABELS))
+        sup = {"src": "supervised", "n": rng.choice([8, 12, 20]), "na": k, "seed": rng.randint(1, 9),
+               "labels": [(start + 3 * j) % len(AWKWARD_LABELS) for j in range(k)],
+               "prefix": rng.choice([[["materialize"]], [["shuffle_seed", 3], ["materialize"]], [["materialize"], ["chunk"]], []]),
+               "branches": rng.choice([[[]], [[["shuffle", 2], ["materialize"]]], [[["materialize"]]]])}
+        if len({AWKWARD_LABELS[i] for i in sup["labels"]}) == k:
+            envs[rng.below(len(envs))] = sup
+            any_logged = any(r.get("logged") for r in envs)
     lrns = []
     for t in range(rng.choice([1, 2, 2, 3, 3])):
         k = rng.below(12)
@@ -946,8 +983,14 @@ def gen_builtin(rng, tier, real_p=0.03):
             # reports through CobaContext.learning_info; sometimes raises in learn after predict wrote its info
             where = rng.choice([["score", "predict", "learn"], ["predict"], ["score"], ["predict", "learn"]])
             lrns.append({"type": "info", "tag": t, "where": where, "fail_learn_at": rng.choice([None, None, 0, 1, 3])})
-        elif k < 11:
+        elif k < 10:
             lrns.append({"type": "policy", "tag": t, "p": rng.choice([0.0, 0.0, 1.0 / na, 0.5])})
+        elif k < 11:
+            # one class, instances with and without `score` (usually a pair, in either order)
+            first = rng.chance(0.5)
+            lrns.append({"type": "maybe", "tag": t, "can_score": first})
+            if rng.chance(0.7):
+                lrns.append({"type": "maybe", "tag": t + 10, "can_score": not first})
         else:
             lrns.append({"type": "row", "tag": t})
     vals = []
@@ -989,7 +1032,7 @@ def gen_builtin(rng, tier, real_p=0.03):
             {"cfg": [1, 0, rng.choice([1, 2, 3])], "how": "inproc", "sched": 0} for _ in range(rng.choice([1, 2]))]
     if rng.chance(0.3):
         case["rerun"] = True
-    return case
+    return tame_real_runs(case)
 
 
 def shrink_case(case):
@@ -1058,6 +1101,8 @@ def feature_tags(case):
             tags.append("lrn:info-then-raises")
         if any(r.get("logged") for r in case["envs"]):
             tags.append("env:logged")
+        if any(r.get("src") == "supervised" for r in case["envs"]):
+            tags.append("env:supervised-string-labels")
     else:
         if any(r.get("skip_mult") is not None for r in case["vals"]):
             tags.append("val:rowless-for-some-learner")
@@ -1172,9 +1217,11 @@ class C01(Property):
         outs = []
         t_end = time.time() + CASE_BUDGET
         for k, run in enumerate(runs):
+            if k > 0 and time.time() > t_end:
+                tags.append("truncated:case-budget")         # the remaining configurations of this case are not run
+                runs = runs[:k]
+                break
             try:
-                if k > 0 and time.time() > t_end:
-                    raise RunTimeout("the runs of this case already took more than %ds" % CASE_BUDGET)
                 o = run_iso(case, run["cfg"], run["how"], run["sched"], run.get("pre"))
             except RunTimeout as e:
                 # never a verdict about the property: reported as infrastructure, the remaining runs are dropped
@@ -1399,6 +1446,25 @@ def directed_cases():
                "vals": [{"tag": 0, "seed": None, "learn": True, "mode": 1}],
                "mode": "product", "pe": [0, 1, 2], "pl": [0, 1, 2, 3], "pv": [0], "single_eval": True,
                "runs": [inproc, {"cfg": [1, 0, 1], "how": "inproc", "sched": 0}, {"cfg": [2, 0, 0], "how": "sim", "sched": 22}, {"cfg": [2, 1, 2], "how": "sim", "sched": 23}]})
+    # --- round d
+    # string labels that a lossy text round trip of pickled reward objects would mangle, materialized, on workers
+    cs.append({"kind": "builtin", "seed": 1,
+               "envs": [{"src": "supervised", "n": 20, "na": 3, "seed": 2, "labels": [0, 1, 2], "prefix": [["materialize"]], "branches": [[["shuffle", 2], ["materialize"]]]},
+                        {"src": "supervised", "n": 12, "na": 3, "seed": 3, "labels": [3, 5, 6], "prefix": [], "branches": [[["materialize"]]]},
+                        {"src": "supervised", "n": 12, "na": 3, "seed": 4, "labels": [7, 8, 9], "prefix": [["materialize"]], "branches": [[]]}],
+               "lrns": [{"type": "eps", "eps": 0.1, "seed": 3}, {"type": "random", "seed": 2}],
+               "vals": [{"type": "seq", "record": ["reward", "action"], "seed": None}],
+               "mode": "product", "pe": [0, 1, 2, 3], "pl": [0, 1], "pv": [0], "single_eval": True,
+               "runs": [inproc, {"cfg": [2, 0, 0], "how": "sim", "sched": 31}, {"cfg": [1, 1, 1], "how": "real", "sched": 0}]})
+    # two instances of one learner class, only one of them with `score`, both orders, evaluators that ask has_score
+    for order in ([0, 1], [1, 0]):
+        cs.append({"kind": "builtin", "seed": 1,
+                   "envs": [{"src": "linear", "n": 30, "na": 2, "seed": 3, "logged": True, "log_seed": 5, "prefix": [], "branches": [[]]}],
+                   "lrns": [{"type": "maybe", "tag": 0, "can_score": False}, {"type": "maybe", "tag": 1, "can_score": True}],
+                   "vals": [{"type": "rej", "record": ["reward", "action"], "seed": None},
+                            {"type": "seq", "record": ["reward"], "seed": None, "learn": None, "eval": "ips"}],
+                   "mode": "product", "pe": [0], "pl": order, "pv": [0, 1],
+                   "runs": [inproc, {"cfg": [2, 0, 1], "how": "sim", "sched": 32}]})
     return cs
 
 
